@@ -83,6 +83,8 @@ def run_ip(fields):
     from netconan import ip_anonymization as ipa
 
     cmd = fields[0]
+    if cmd == "gbase":
+        cmd = "base"
     if cmd == "base":
         _, n, B, sal, ops = fields
 
@@ -414,7 +416,7 @@ def run_files(fields):
         shutil.rmtree(root, ignore_errors=True)
 
 
-DISPATCH = {"main": run_main, "files": run_files, "asr": run_asr, "pipe": run_pipe, "base": run_ip, "ip4": run_ip, "ip6": run_ip, "jenc": run_jun, "jdec": run_jun}
+DISPATCH = {"gbase": run_ip, "main": run_main, "files": run_files, "asr": run_asr, "pipe": run_pipe, "base": run_ip, "ip4": run_ip, "ip6": run_ip, "jenc": run_jun, "jdec": run_jun}
 
 
 def main():
